@@ -179,6 +179,7 @@ def check(prop, tier, seed):
                             est_events_per_script=20)
     res = {"suite": "saveload", "kind": "enum+rand", "params": params, "cache_hit": False,
            "n_scripts": r["n_scripts"], "n_events": r["n_events"], "wall_s": r["wall_s"]}
+    res["rule"] = "all world contents on <= 3 entities (sampled in the quick tier) + random reference graphs on 4-6 entities for the recursive serialiser + re-mark/counter scripts + random two-world histories; every operation logs the complete world content; TLC validates against SaveLoad_L0"
     bytid = {s["tid"]: s for s in scripts}
     viol, seen = [], set()
     for v in sorted(r["viol"], key=lambda x: (x["p"], x["tid"], x["line"])):
